@@ -194,6 +194,10 @@ pub fn run(op: &str, a: &Value) -> Value {
         "lax.compose" => opt(Arrow::compose(&lax_in(&a["f"]), &lax_in(&a["g"])).map(|x| lax_out(&x))),
         "lax.compose_shr" => opt((&lax_in(&a["f"]) >> &lax_in(&a["g"])).map(|x| lax_out(&x))),
         "lax.identity" => val(lax_out(&LaxOH::identity(vec_o(&a["w"])))),
+        "lax.h.discrete" => {
+            let h = lax::Hypergraph::<O, A>::discrete(vec_o(&a["w"]));
+            val(lax_out(&LaxOH { hypergraph: h, sources: vec![], targets: vec![] }))
+        }
         "lax.twist" => val(lax_out(&<LaxOH as SymmetricMonoidal>::twist(vec_o(&a["a"]), vec_o(&a["b"])))),
         "lax.spider" => opt(LaxOH::spider(ff(&a["s"]), ff(&a["t"]), vec_o(&a["w"])).map(|x| lax_out(&x))),
         "lax.half_spider" => opt(<LaxOH as Spider<VecKind>>::half_spider(ff(&a["s"]), vec_o(&a["w"])).map(|x| lax_out(&x))),
